@@ -44,20 +44,34 @@ func (tracker *defaultImportTracker) add(path string) {
 	parts := strings.Split(path, "/")
 
 	for i := range len(parts) {
-		localName := golangTrackerLocalName(parts, i+1)
-
-		if tracker.checkStd {
-			if p, ok := std.nameToPath[localName]; ok && p != path {
-				continue
-			}
-		}
-
-		if _, ok := tracker.nameToPath[localName]; !ok {
-			tracker.nameToPath[localName] = path
-			tracker.pathToName[path] = localName
-			break
+		if tracker.bind(path, golangTrackerLocalName(parts, i+1)) {
+			return
 		}
 	}
+
+	// every candidate is taken, number the longest one
+	base := golangTrackerLocalName(parts, len(parts))
+	for i := 2; ; i++ {
+		if tracker.bind(path, base+strconv.Itoa(i)) {
+			return
+		}
+	}
+}
+
+func (tracker *defaultImportTracker) bind(path string, localName string) bool {
+	if tracker.checkStd {
+		if p, ok := std.nameToPath[localName]; ok && p != path {
+			return false
+		}
+	}
+
+	if _, ok := tracker.nameToPath[localName]; ok {
+		return false
+	}
+
+	tracker.nameToPath[localName] = path
+	tracker.pathToName[path] = localName
+	return true
 }
 
 func toLocalName(parts ...string) string {
